@@ -44,8 +44,9 @@ func (pc *pooledConnectImpl) Recycle() {
 	if pc.IsClosed() {
 		pc.pool.Put(nil)
 	} else {
-		pc.pool.Put(pc)
+		// before Put: afterwards the connection may already belong to the next holder
 		pc.returnTime = time.Now()
+		pc.pool.Put(pc)
 	}
 }
 
